@@ -30,6 +30,7 @@ class ZipfRules:
     def __init__(self, fx, eng, sink):
         self.fx, self.eng, self.sink = fx, eng, sink
         self.classes = []
+        self.writer_thresholds = {}
         for name, rec in fx.records.items():
             m = re.match(r'dbgroup::random::(Approx)?ZipfDistribution<(.*)>$', name)
             if m and name in fx.records:
@@ -301,12 +302,15 @@ class ZipfRules:
         return None
 
     def cond_big(self, p, rec):
-        k = self.exact_bins(rec)
+        """True on the many-bins (approximate) branch, False on the small branch; also records the
+        largest bin count the small branch accepts (writer threshold)"""
         for c, o, _ in p.conds:
-            if isinstance(c, tuple) and c[0] == 'op' and c[1] == '<=' and is_const(self.unext(c[3])) and self.unext(c[3])[1] == k and 'n_' in show(c[2]):
-                return not o
-            if isinstance(c, tuple) and c[0] == 'op' and c[1] == '>' and is_const(self.unext(c[3])) and self.unext(c[3])[1] == k and 'n_' in show(c[2]):
-                return o
+            if isinstance(c, tuple) and c[0] == 'op' and c[1] in ('<=', '<', '>', '>=') and is_const(self.unext(c[3])) and 'n_' in show(c[2]) and self.unext(c[3])[1] > 2:
+                v = self.unext(c[3])[1]
+                small_max = {'<=': v, '<': v - 1, '>': v, '>=': v - 1}[c[1]]
+                self.writer_thresholds.setdefault(rec, set()).add(small_max)
+                small = o if c[1] in ('<=', '<') else (not o)
+                return not small
         return None
 
     def exact_bins(self, rec):
@@ -405,6 +409,9 @@ class ZipfRules:
 
     def approx_rules(self, rec, r, sn, tab, tobj, upd):
         k = self.exact_bins(rec)
+        wt = self.writer_thresholds.get(rec, set())
+        self.sink.emit('C06.SWITCH', 'ok' if wt == {k} else ('violated' if wt else 'unsupported'), '%s::UpdateCDF fills and pins the table for every bin count up to kExactBinNum' % sn, self.loc(upd),
+                       'writer takes the exact branch for n <= %s; the reader reads the table for id < %s' % (sorted(wt), k) if wt else 'switch not recognised')
         tf = next(f for f in r['fields'] if f['name'] == tab)
         m = re.search(r',\s*(\d+)>$', tf['type']['ct'])
         ext = int(m.group(1)) if m else None
@@ -456,11 +463,9 @@ class ZipfRules:
                         self.sink.bad('C06.DENOM', '%s::%s rewrites %s' % (sn, f['short'], e['path'][2]), self.loc(f, e['line']), '')
 
 
-_cache = {}
-
-
 def analyse(fx, eng):
-    k = id(fx)
+    _cache = fx.__dict__.setdefault('_rule_cache', {})
+    k = 'zipf'
     if k not in _cache:
         sink = Sink()
         r = ZipfRules(fx, eng, sink)
